@@ -2,7 +2,7 @@
 import histcheck
 
 PID = "C10"
-COMMON = ["hist", "-proj", "reporter", "-boundary", "-gov", "-jumps", "-valstatus", "-maxops", "6", "-sbias", "2"]
+COMMON = ["hist", "-proj", "reporter", "-boundary", "-gov", "-jumps", "-valstatus", "-maxops", "6", "-sbias", "2", "-stories", "90"]
 
 def run(tier, seed, replay):
     return histcheck.run(
